@@ -458,6 +458,41 @@ def rules(rep, m):
                    "afterwards, so the 2nd, 3rd, ... growth happens too (shared with R-C20-5, engine LSE)", floor=1)
     c20.chunk_list_bounds(rep, r11, m)
 
+    # R-C10-12 -----------------------------------------------------------
+    r12 = rep.rule("R-C10-12", "the event handles kept in a process's awaitable tags are handles of queued events: "
+                   "cmb_process_priority_set hands each of them to cmb_event_reprioritize, which aborts on a handle that is "
+                   "not queued (release assertion) - so the timer wake-up removes the tag of exactly the timer that fired, "
+                   "by the handle of the current event, not the first time-type tag (shared with R-C04-5)", floor=2)
+    ps = m.need("cmb_process_priority_set")
+    px = FuncCtx(m, ps)
+    uses = [c for c in walk(ps.body) if c["kind"] == "CallExpr" and callee_ref(c) == "cmb_event_reprioritize" and
+            re.search(r"->(handle|ptr)\b", px.canon(kids(c)[1]))]
+    er = m.need("cmb_event_reprioritize")
+    asserted = any(y["kind"] == "CallExpr" and callee_ref(y) in ("cmi_hashheap_is_enqueued",)
+                   for s_ in kids(er.body) if inv.assert_condition(s_) is not None for y in walk(s_))
+    r12.instance("cmb_process_priority_set reprioritises %d stored handle(s); cmb_event_reprioritize asserts the handle is "
+                 "queued: %s" % (len(uses), asserted))
+    r12.ok()
+    if uses and asserted:
+        from . import c04
+        c04.timer_awaitable_clause(rep, r12, m)
+    else:
+        # nothing aborts on a stale handle any more: the clause has no consequence for this property
+        r12.instance("no consumer aborts on a stale handle: clause not required")
+        r12.ok()
+
+
+    # R-C10-13 -----------------------------------------------------------
+    r13 = rep.rule("R-C10-13", "scratch arrays: every subscript of a locally allocated array - in the allocating function and "
+                   "in the library function the array is handed to - stays below the allocated element count (polynomial "
+                   "index and count over parameters, loop variables and match counters; facts from release assertions, "
+                   "dominating conditions and loop ranges; decided by Fourier-Motzkin elimination; subscripts outside the "
+                   "fragment are listed as undecided and not judged)", floor=20)
+    from . import scratch
+    decided, undecided = scratch.check_scratch_arrays(rep, r13, m)
+    if decided < 20:
+        raise AnalysisBroken("R-C10-13 decided only %d scratch-array subscripts" % decided)
+
 
 def run(tier="quick"):
     models = common.load_models(tier)
